@@ -1,6 +1,7 @@
 import AidlVerif.Driver.Codec
 import AidlVerif.Model.Validation
 import AidlVerif.Props.C07
+import AidlVerif.Props.C05
 
 /-
   Model driver: one JSON case per input line, one JSON verdict per output line.
@@ -87,8 +88,25 @@ def handleC07 (c : ValCtx) (v : Verdict) : Verdict :=
         s!"{catName (Spec.Category.of p.2.argType.kind)}/{reprStr (Spec.C07.dirOf p.2.direction)}/{p.1.oneway}"
   { v with nontrivial := !args.isEmpty, dist := args.foldl bump v.dist }
 
+def zipById (a b : List FileResult) : List (FileResult × FileResult) :=
+  a.filterMap fun x => (b.find? (fun y => y.id == x.id)).map fun y => (x, y)
+
+def handleC05 (c : ValCtx) (v : Verdict) : Verdict :=
+  let v := v.addCorr "C05" (decide (c.model.map Spec.C05.proj = c.out.map Spec.C05.proj))
+  let v := v.addSpec "C05" ((zipById c.stage1 c.out).all fun (a, b) => Spec.C05.holdsFile c.defined a b)
+  let v := v.addAssume "C05" (c.stage1.all fun fr => match groupsOf c fr with
+    | none => true
+    | some (g, _) => decide (Props.C05.Fresh g))
+  let refs := c.stage1.flatMap fun fr => match fr.ast with
+    | none => []
+    | some ast => (allTypesPre ast).filter (fun t => t.kind = .unresolved)
+  let kinds := c.out.flatMap fun fr => match fr.ast with
+    | none => []
+    | some ast => (Spec.C05.nodes ast).map fun n => catName (Spec.Category.of n.2.2)
+  { v with nontrivial := !refs.isEmpty, dist := kinds.foldl bump v.dist }
+
 def valHandlers : List (String × (ValCtx → Verdict → Verdict)) :=
-  [("C07", handleC07)]
+  [("C07", handleC07), ("C05", handleC05)]
 
 def opValidate (prop : String) (j : Json) : R Verdict := do
   let impl ← fld j "impl"
